@@ -30,6 +30,13 @@ def make_run(cfg):
     from vf import targets
     from Pyro5 import client, errors, protocol, server, serializers, socketutil
 
+    class ConnStandIn(object):
+        def __init__(self, conn):
+            self.key = id(conn)
+
+    def key_of(c):
+        return c.key if isinstance(c, ConnStandIn) else id(c)
+
     class HookDaemon(server.Daemon):
         def __init__(self, *a, **k):
             self.hooks = {}
@@ -37,7 +44,9 @@ def make_run(cfg):
             super().__init__(*a, **k)
 
         def validateHandshake(self, conn, data):
-            self.handshaken.append((data, conn))
+            # (the harness normally keeps the connection object, so that ids stay unique; where the connection object's own finalisation
+            #  matters it keeps a stand-in with the same identity number instead)
+            self.handshaken.append((data, ConnStandIn(conn) if cfg.get("raising_resource") else conn))
             return "ok"
 
         def clientDisconnect(self, conn):
@@ -205,7 +214,7 @@ def make_run(cfg):
                     if not timeout and cfg["ending"] != "never-handshaken-close":
                         # once the daemon has run A's disconnect handling, everything tracked on A must be closed - while B is still open
                         a_conns = lambda: [c for dta, c in d.handshaken if dta == "A"]
-                        w.sch.block(lambda: a_conns() and all(d.hooks.get(id(c), 0) >= 1 for c in a_conns()), what="A cleaned up")
+                        w.sch.block(lambda: a_conns() and all(d.hooks.get(key_of(c), 0) >= 1 for c in a_conns()), what="A cleaned up")
                         got["b"].append(("a-resources-after-a-ended", [(r.name, r.closed) for lab, r, st in reg["resources"] if lab == "A" and st == "tracked"]))
                     # B's resources must still be open while B is connected
                     got["b"].append(("b-resources-closed-while-open", [r.closed for lab, r, st in reg["resources"] if lab == "B"]))
@@ -254,7 +263,7 @@ def make_run(cfg):
                     by_label.setdefault(data, []).append(conn)
                 for data, conns in by_label.items():
                     for conn in conns:
-                        n = d.hooks.get(id(conn), 0)
+                        n = d.hooks.get(key_of(conn), 0)
                         if n != 1:
                             V("disconnect-hook-called-%d-times|%s|%s" % (n, cfg["server"], ecls if data == "A" else "other-connection"), "connection %s: clientDisconnect ran %d times" % (data, n))
                 for lab, r, st in reg["resources"]:
